@@ -149,6 +149,23 @@ def r2(cx):
                      "wrong chunks" % lb.sp(gap), [lb.sp(gap)])
     elif rec_blocks:
         cx.passed(lk, "record-immediately-after-registration", [lb.sp(sorted(rec_blocks)[0])])
+    # ... on every path: no Ok exit is reachable from a successful (re-)registration - of the chunk table or of the empty table - without passing the record's write; a
+    # registration that is not recorded leaves the record naming the previous set, and the next request for that set takes the equality short-cut against this call's table
+    unrec = None
+    for e in sorted(rs | es):
+        if e[1] in rec_blocks:
+            continue
+        reach = (lb.reachable(e[1], removed_blocks=rec_blocks) | {e[1]}) - rec_blocks
+        ox = [x for x in exits if x[0] in reach]
+        if ox:
+            unrec = (e, ox[0])
+            break
+    if unrec is not None:
+        cx.violation(lk, "every-registration-is-recorded", "%s: Ok is returned after `metrics` was re-bound (registration at %s) without recording the set it is now bound to: the record keeps naming "
+                     "the previous set, and a later query selecting that set is answered from this call's table (an empty one after a query that selected no chunk)" % (
+                         lb.sp(unrec[1][0], unrec[1][1]), lb.sp(unrec[0][0])), [lb.sp(unrec[0][0]), lb.sp(unrec[1][0], unrec[1][1])])
+    elif rec_blocks and (rs | es):
+        cx.passed(lk, "every-registration-is-recorded", [lb.sp(x) for x in sorted(rec_blocks)[:2]], "%d registration success edges, each followed by the record's write before any Ok exit" % len(rs | es))
     if early_w:
         cx.violation(lk, "record-written-after-registration", "%s: the record of the registered chunk set is written before the table registration it describes has succeeded" % lb.sp(early_w[0]), [lb.sp(early_w[0])])
     elif n_w >= 1:
